@@ -110,6 +110,9 @@ type byzState struct {
 	mpPart2 *u.MapPollard // partial node with some remembered leaves
 	synth   bool
 	big     *Node // non-nil: claims are translated to the big coordinates before they reach a verifier
+	// other states of the history's block tree (earlier blocks, undone blocks,
+	// other branches): honest proofs of those states are replayed as stale claims
+	others []*State
 }
 
 var byzVerifiers = []string{"Verify", "Stump.Update", "Pollard.Verify", "MapPollard.Verify", "MapPollard(partial).Verify", "VerifyPartialProof",
@@ -147,8 +150,15 @@ func (e *byzEngine) buildState(bc *ByzCase) (*byzState, *Stats) {
 		}
 		return bs, NewStats()
 	}
-	w := BuildWorld(bc.History, Options{Property: "-", Oracles: map[string]bool{"roots": true}})
+	// "prove": the forests also prove and verify between the blocks of the history
+	// (state a verifier keeps between calls must not outlive a block or an undo)
+	w := BuildWorld(bc.History, Options{Property: "-", Oracles: map[string]bool{"roots": true, "prove": true}})
 	bs := &byzState{st: w.blocks[w.tip].Post}
+	for id := len(w.blocks) - 1; id >= 1 && len(bs.others) < 6; id-- {
+		if id != w.tip && w.blocks[id].Post.N > 0 {
+			bs.others = append(bs.others, w.blocks[id].Post)
+		}
+	}
 	L := bs.st.Layout()
 	bs.stump = u.Stump{Roots: append([]H(nil), L.Roots...), NumLeaves: bs.st.N}
 	for _, n := range w.nodes {
@@ -205,7 +215,7 @@ func (e *byzEngine) genCase(seed uint64) *ByzCase {
 		return bc
 	}
 	// a reachable state: short block history
-	p := &Profile{Name: "byzstate", Property: e.prop, MaxBlocks: 8, MaxAdds: 12,
+	p := &Profile{Name: "byzstate", Property: e.prop, MaxBlocks: 8, MaxAdds: 12, PReorg: 18,
 		Nodes: func(r *Rng) []NodeCfg {
 			return []NodeCfg{{Kind: "pollard"}, {Kind: "mapfull", TotalRows: rowsChoice(r)}, {Kind: "mappartial", TotalRows: rowsChoice(r)}}
 		}}
@@ -216,15 +226,22 @@ func (e *byzEngine) genCase(seed uint64) *ByzCase {
 		p.MaxBlocks, p.MaxAdds = 12, 400 // trees of 512 and more leaves: rows 9+
 	}
 	sc := Generate(p, mix64(seed^0xb42))
-	// plain delivery: no latencies / faults needed to build a state
+	// plain delivery: no latencies / faults needed to build a state; the source's
+	// tip switches stay, so the forests reach the state through Undo as well
 	var steps []Step
 	for _, s := range sc.Steps {
-		if s.Op == "block" {
+		if s.Op == "block" || s.Op == "tip" || s.Op == "tick" {
 			s.Lat = nil
 			steps = append(steps, s)
 		}
 	}
 	sc.Steps = steps
+	if nb := countBlocks(steps); nb >= 2 && r.Pct(35) {
+		// the generator always ends on a block; here the history ends on a
+		// reorganisation instead: the claims meet forests that have just undone
+		// one or more blocks (back to the block created before the last one)
+		sc.Steps = append(sc.Steps, Step{Op: "tick", Dt: 2}, Step{Op: "tip", Pick: nb - 1 - r.Intn(2)*r.Intn(2)}, Step{Op: "tick", Dt: 2})
+	}
 	bc.History = sc
 	if r.Pct(25) {
 		bc.Big = bigOffset(r)
@@ -401,6 +418,16 @@ func (e *byzEngine) Replay(raw json.RawMessage, f *Findings, trace bool) (*CaseR
 // ---------------------------------------------------------------------------
 // claims
 
+func countBlocks(steps []Step) int {
+	n := 0
+	for _, s := range steps {
+		if s.Op == "block" {
+			n++
+		}
+	}
+	return n
+}
+
 func (e *byzEngine) genClaims(bc *ByzCase, bs *byzState, stats *Stats) []Claim {
 	r := SubRng(bc.Seed, "byz-claims")
 	var out []Claim
@@ -429,6 +456,26 @@ func (e *byzEngine) genClaims(bc *ByzCase, bs *byzState, stats *Stats) []Claim {
 	sortH(pool)
 	pool = append(pool, zeroH, H{0xf1, 0xe2, 0xd3, 9, 9, 9})
 	maxPos := (uint64(2) << L.R) + 2
+	// stale claims: honest proofs of other states of the block tree (the parent
+	// state, an undone block, another branch) presented against this state
+	for _, ost := range bs.others {
+		ol := ost.Live()
+		if len(ol) == 0 {
+			continue
+		}
+		for k := 0; k < 3; k++ {
+			sub := w.pickSubset(r, ost, ol)
+			if len(sub) > 8 {
+				sub = sub[:8]
+			}
+			pr, ok := ost.Layout().CanonProof(sub)
+			if !ok {
+				continue
+			}
+			stats.Reach["byz_stale_claim"]++
+			out = append(out, Claim{Hashes: sub, Targets: pr.Targets, Proof: pr.Proof, Mut: "stale: honest proof of another state of the history"})
+		}
+	}
 	nsets := 2
 	for s := 0; s < nsets; s++ {
 		sub := w.pickSubset(r, st, live)
